@@ -206,3 +206,57 @@ package model
 // versions (2011, 2013, 2019) for every decoded message (Decode sets 2013 or 2019).
 //@ func (*T0x0100).Parse
 //@   requires version: jtMsg.Header.ProtocolVersion >= 1 && jtMsg.Header.ProtocolVersion <= 3
+
+// ---------------------------------------------------------------------------------------------
+// C06: reply bodies, reply IDs and whether a reply is due, per message type (standard tables 0x8001, 0x8100, 0x8800)
+// ---------------------------------------------------------------------------------------------
+//@ func (*P0x8001).Encode
+//@   mode contract
+//@   modifies nothing
+//@   ensures C06.layout: fresh(result) && len(result) == 5 && be16(result, 0) == p.RespondSerialNumber && be16(result, 2) == p.RespondID && result[4] == p.Result
+
+//@ func (*BaseHandle).ReplyBody
+//@   ensures C06.general: result1 == nil && len(result0) == 5 && be16(result0, 0) == jtMsg.Header.SerialNumber && be16(result0, 2) == jtMsg.Header.ID && result0[4] == 0
+//@ func (*BaseHandle).ReplyProtocol
+//@   ensures C06.id: result == 0x8001
+//@ func (*BaseHandle).HasReply
+//@   ensures C06.has: result
+
+//@ func (*T0x0001).HasReply
+//@   ensures C06.none: !result
+//@ func (*T0x0104).HasReply
+//@   ensures C06.none: !result
+//@ func (*T0x0805).HasReply
+//@   ensures C06.none: !result
+//@ func (*T0x1205).HasReply
+//@   ensures C06.none: !result
+//@ func (*T0x1206).HasReply
+//@   ensures C06.none: !result
+//@ func (*T0x0002).ReplyProtocol
+//@   ensures C06.id: result == 0x8001
+//@ func (*T0x0100).ReplyProtocol
+//@   ensures C06.id: result == 0x8100
+//@ func (*T0x0801).ReplyProtocol
+//@   ensures C06.id: result == 0x8800
+//@ func (*T0x1210).ReplyProtocol
+//@   ensures C06.id: result == 0x8001
+//@ func (*T0x1212).ReplyProtocol
+//@   ensures C06.id: result == 0x9212
+
+//@ func (*T0x0102).ReplyBody
+//@   ensures C06.echo: result1 == nil ==> len(result0) == 5 && be16(result0, 0) == jtMsg.Header.SerialNumber && be16(result0, 2) == jtMsg.Header.ID
+//@   ensures C06.auth: result1 == nil ==> iff(result0[4] == 0, jtMsg.Header.TerminalPhoneNo == t.AuthCode) && (result0[4] == 0 || result0[4] == 1)
+//@   ensures C06.code2013: result1 == nil && jtMsg.Header.ProtocolVersion != 3 ==> sameBytes(t.AuthCode, old(jtMsg.Body))
+//@   ensures C06.code2019: result1 == nil && jtMsg.Header.ProtocolVersion == 3 ==> sameBytes(t.AuthCode, old(jtMsg.Body[1 : 1+int(jtMsg.Body[0])]))
+//@   ensures C06.err: result1 != nil ==> jtMsg.Header.ProtocolVersion == 3 && result0 == nil
+
+//@ func (*P0x8100).Encode
+//@   requires code: len(p.AuthCode) <= 65536
+//@   ensures C06.layout: len(result) == 3 + len(p.AuthCode) && be16(result, 0) == p.RespondSerialNumber && result[2] == p.Result && sameBytes(result[3:], p.AuthCode)
+
+//@ func (*T0x0100).ReplyBody
+//@   requires phone: len(jtMsg.Header.TerminalPhoneNo) <= 64
+//@   ensures C06.register: result1 == nil && len(result0) == 3 + len(jtMsg.Header.TerminalPhoneNo) && be16(result0, 0) == jtMsg.Header.SerialNumber && result0[2] == 0 && sameBytes(result0[3:], jtMsg.Header.TerminalPhoneNo)
+
+//@ func (*T0x0801).ReplyBody
+//@   ensures C06.multimedia: result1 == nil && (len(jtMsg.Body) >= 36 ==> len(result0) == 4 && be32(result0, 0) == old(be32(jtMsg.Body, 0)))
